@@ -1,6 +1,7 @@
 import BoboVerif.Props.C04
 import BoboVerif.Model.Engine
 import BoboVerif.Lemmas.GenDecider
+import BoboVerif.Lemmas.IdInv
 /-!
 C05 — A finished run stays finished: at most one complex event per run and instance.
 
@@ -232,4 +233,108 @@ theorem decider_local_fragments_c05 {ε : Type} (e : ε) (ph : String) (acc : Ru
       ["first-block:any-predicate,raise-counts-as-no,empty-history", "new-run:index-1,history-{group0:[event]},fresh-id",
        "return:completed,updated"] :=
   ⟨gen_checkRun_eq e ph acc r, gen_startDecision_eq _ _ _ _, gen_runsShape_eq, gen_patternsShape_eq⟩
+end Bobo.Decider
+
+/-! ### over a whole local execution: every finished run is announced exactly once -/
+namespace Bobo.Decider
+open Bobo.Run Bobo.Lattice
+variable {ε : Type}
+
+/-- one instance processing a stream of events (its own `update()` only), with room in the finished-run memory at
+every step; `nts` collects the notifications in order. -/
+inductive LocalRun (c : Cfg ε) (f : Nat → String) : DState ε → List (Notif ε) → Prop
+  | init : LocalRun c f {} []
+  | step {a a' : DState ε} {nts : List (Notif ε)} {e : ε} {nt : Notif ε} {ch : Bool} (h : LocalRun c f a nts)
+      (hA : localStep (withIds c f) a e = some (a', nt, ch))
+      (hevC : a.cacheC.length + nt.completed.length ≤ c.maxCache)
+      (hevH : a.cacheH.length + nt.halted.length ≤ c.maxCache) : LocalRun c f a' (nts ++ [nt])
+
+/-- the identifiers announced as finished so far. -/
+def finishedIds (nts : List (Notif ε)) : List String := nts.flatMap (fun nt => (nt.completed ++ nt.halted).map (·.id))
+
+structure LocalRunInv (c : Cfg ε) (f : Nat → String) (a : DState ε) (nts : List (Notif ε)) : Prop where
+  wf : TableWF a.table
+  live : ∀ ph pa id r, a.table.runAt ph pa id = some r → r.run.halted = false
+  ids : IdInv c (fun id => ∃ k, k < a.nextId ∧ id = f k) a
+  remembered : ∀ id ∈ finishedIds nts, inCache a.cacheC id = true ∨ inCache a.cacheH id = true
+  once : (finishedIds nts).Nodup
+
+/-- **a finished run is announced exactly once over a whole execution** (and never again: its identifier stays in
+the finished-run memory, which `update()` never evicts here, and no stored or fresh identifier is in the memory).
+For every stream, every pattern set whose names resolve uniquely, a repetition-free identifier generator, memory
+enabled with room: the list of all identifiers ever announced as completed or halted has no duplicates. -/
+theorem finished_announced_once (c : Cfg ε) (hc : c.caching = true) (hcw : CfgWF c) (f : Nat → String)
+    (inj : ∀ i j, f i = f j → i = j) (a : DState ε) (nts : List (Notif ε)) (h : LocalRun c f a nts) :
+    LocalRunInv c f a nts := by
+  induction h with
+  | init =>
+    have hnone : ∀ ph pa id (r : LRun ε), ({} : DState ε).table.runAt ph pa id = some r → False := by
+      intro ph pa id r hr; simp [Table.runAt, Table.runsFrom, lookup] at hr
+    exact ⟨wf_empty, fun ph pa id r hr => (hnone ph pa id r hr).elim,
+      ⟨fun ph pa id r hr => (hnone ph pa id r hr).elim, fun ph pa id r hr => (hnone ph pa id r hr).elim,
+       fun id hm => by simp [inCache] at hm, fun ph pa _ _ id r _ hr _ => (hnone ph pa id r hr).elim,
+       fun ph pa id r hr => (hnone ph pa id r hr).elim⟩,
+      fun id hid => by simp [finishedIds] at hid, by simp [finishedIds]⟩
+  | @step a a' nts e nt ch _ hA hevC hevH ih =>
+    have hfr : ∀ k, a.nextId ≤ k → ¬ (∃ k', k' < a.nextId ∧ f k = f k') := by
+      rintro k hk ⟨k', hk', e'⟩
+      have := inj k k' e'; omega
+    obtain ⟨hnext, hmem, _, _, hids', hnd⟩ := local_ids c hc hcw f inj (fun id => ∃ k, k < a.nextId ∧ id = f k) a a' e nt ch
+      ih.wf ih.live ih.ids hfr hA hevC hevH
+    have hc' : (withIds c f).caching = true := hc
+    have hwf' : TableWF a'.table := (local_is_join (withIds c f) hc' a a' e nt ch ih.wf hA hevC hevH).1
+    have hlive' : ∀ ph pa id r, a'.table.runAt ph pa id = some r → r.run.halted = false :=
+      fun ph pa id r hr => local_live (withIds c f) a a' e nt ch ih.wf hA ph pa id (fun r0 => ih.live ph pa id r0) r hr
+    -- the memories after the step
+    have hmemAfter : a'.cacheC = a.cacheC ++ nt.completed ∧ a'.cacheH = a.cacheH ++ nt.halted := by
+      unfold localStep at hA
+      generalize checkAgainstRuns e a.table = car at hA
+      obtain ⟨t1, rhc, rhi, rupd⟩ := car
+      simp only at hA
+      cases hcp : checkAgainstPatterns (withIds c f) e t1 a.nextId with
+      | none => simp [hcp] at hA
+      | some acc =>
+        simp only [hcp, Option.some.injEq, Prod.mk.injEq] at hA
+        obtain ⟨hs', hnt, _⟩ := hA
+        subst hnt
+        have e1 : a.cacheC.length + (rhc ++ acc.hc).length ≤ (withIds c f).maxCache := hevC
+        have e2 : a.cacheH.length + rhi.length ≤ (withIds c f).maxCache := hevH
+        rw [maybeCache_noevict (withIds c f) hc' { table := acc.table, cacheC := a.cacheC, cacheH := a.cacheH, nextId := acc.nextId } _ _ e1 e2] at hs'
+        subst hs'
+        exact ⟨rfl, rfl⟩
+    refine ⟨hwf', hlive', hids'.mono ?_, ?_, ?_⟩
+    · rintro id (⟨k, hk, e1⟩ | ⟨k, _, hk2, e1⟩)
+      · exact ⟨k, by omega, e1⟩
+      · exact ⟨k, hk2, e1⟩
+    · intro id hid
+      simp only [finishedIds, List.flatMap_append, List.flatMap_cons, List.flatMap_nil, List.append_nil, List.mem_append] at hid
+      rw [hmemAfter.1, hmemAfter.2, inCache_append, inCache_append]
+      rcases hid with hold | hnew
+      · rcases ih.remembered id hold with h1 | h1
+        · left; simp [h1]
+        · right; simp [h1]
+      · obtain ⟨x, hx, hxe⟩ := List.mem_map.mp hnew
+        rcases List.mem_append.mp hx with h1 | h1
+        · left
+          have : nt.completed.any (fun r => r.id == id) = true := List.any_eq_true.mpr ⟨x, h1, by simp [hxe]⟩
+          simp [this]
+        · right
+          have : nt.halted.any (fun r => r.id == id) = true := List.any_eq_true.mpr ⟨x, h1, by simp [hxe]⟩
+          simp [this]
+    · simp only [finishedIds, List.flatMap_append, List.flatMap_cons, List.flatMap_nil, List.append_nil]
+      rw [List.nodup_append]
+      refine ⟨ih.once, hnd, ?_⟩
+      intro i hi j hj hij
+      -- an identifier announced earlier is remembered; nothing announced now is remembered
+      obtain ⟨x, hx, hxe⟩ := List.mem_map.mp hj
+      have hnot := hmem x (List.mem_append.mpr (.inl hx))
+      rcases ih.remembered i hi with h1 | h1
+      · rw [hij, ← hxe, hnot.1] at h1; exact absurd h1 (by decide)
+      · rw [hij, ← hxe, hnot.2] at h1; exact absurd h1 (by decide)
+
+/-- in particular: the identifiers ever announced as finished are pairwise different. -/
+theorem finished_ids_nodup (c : Cfg ε) (hc : c.caching = true) (hcw : CfgWF c) (f : Nat → String)
+    (inj : ∀ i j, f i = f j → i = j) (a : DState ε) (nts : List (Notif ε)) (h : LocalRun c f a nts) :
+    (finishedIds nts).Nodup := (finished_announced_once c hc hcw f inj a nts h).once
+
 end Bobo.Decider
